@@ -751,6 +751,9 @@ func (e *Engine) load(place *Term, ctx *Ctx, at ssa.Value) *Term {
 				}
 			} else if e.dominatesSuccessExits(c.w.Instr) {
 				must = true
+			} else if atInstr != nil && e.loadIsAfter(c.w.Instr, atInstr, ctx) {
+				// the load sits in a callee entered, on this call string, after the write
+				must = true
 			}
 		}
 	}
